@@ -411,3 +411,7 @@ where
 {
     Err(SnapshotSaveError::NotSupported.into())
 }
+
+#[cfg(kani)]
+#[path = "/verif/hooks/core/szx.rs"]
+mod verif_hooks;
